@@ -419,15 +419,39 @@ func ruleValCons(c *Ctx) {
 			c.undecided("anchor:"+fn, token.NoPos, "%s not found", fn)
 			continue
 		}
-		var calls []string
-		ast.Inspect(fd.Body, func(n ast.Node) bool {
-			if call, ok := n.(*ast.CallExpr); ok {
-				if id, ok := call.Fun.(*ast.Ident); ok && strings.HasPrefix(id.Name, "parseFloat") {
-					calls = append(calls, id.Name)
-				}
+		// which recogniser the function classifies text with: its own calls, or those of the methods of value it
+		// delegates to (boolean defined through isTrueStr uses isTrueStr's recogniser)
+		seenCalls := map[string]bool{}
+		var collect func(d *ast.FuncDecl, depth int)
+		collect = func(d *ast.FuncDecl, depth int) {
+			if d == nil || d.Body == nil || depth > 2 {
+				return
 			}
-			return true
-		})
+			ast.Inspect(d.Body, func(n ast.Node) bool {
+				call, ok := n.(*ast.CallExpr)
+				if !ok {
+					return true
+				}
+				if id, ok := call.Fun.(*ast.Ident); ok && strings.HasPrefix(id.Name, "parseFloat") {
+					seenCalls[id.Name] = true
+				}
+				if f := calleeOf(info, call); f != nil && f.Pkg() == p.Types {
+					if sig, ok := f.Type().(*types.Signature); ok && sig.Recv() != nil && isNamed(sig.Recv().Type(), modPath+"/interp", "value") {
+						for _, d2 := range c.allFuncDecls("interp") {
+							if info.Defs[d2.Name] == types.Object(f) && d2 != d {
+								collect(d2, depth+1)
+							}
+						}
+					}
+				}
+				return true
+			})
+		}
+		collect(fd, 0)
+		var calls []string
+		for k := range seenCalls {
+			calls = append(calls, k)
+		}
 		sort.Strings(calls)
 		rec[fn] = strings.Join(calls, ",")
 	}
@@ -466,14 +490,24 @@ func ruleValCons(c *Ctx) {
 			}
 			return 0, false
 		}
-		ctx := &specCtx{fn: sf, sp: &spec{pkg: sf.Pkg, ints: map[string]int64{}, extraInt: isTypField}, bind: map[*ssa.Parameter]specBind{}}
+		ctx := &specCtx{fn: sf, sp: &spec{pkg: sf.Pkg, ints: map[string]int64{}, extraInt: isTypField, c: c}, bind: map[*ssa.Parameter]specBind{}}
 		var cuts []cutEdge
 		nCalls := 0
+		// a call of the recogniser, or of a method of value that itself classifies with it (boolean through isTrueStr)
+		callsRecogniser := func(cal *ssa.Function) bool {
+			if cal == nil {
+				return false
+			}
+			if cal.Name() == "parseFloat" {
+				return true
+			}
+			return cal.Pkg == sf.Pkg && cal != sf && cal.Signature.Recv() != nil && isNamed(cal.Signature.Recv().Type(), modPath+"/interp", "value") && callsWithin(cal, "parseFloat", 1)
+		}
 		for b := range ctx.reached() {
 			calls := false
 			for _, in := range b.Instrs {
 				if call, ok := in.(*ssa.Call); ok {
-					if cal := call.Call.StaticCallee(); cal != nil && cal.Name() == "parseFloat" {
+					if callsRecogniser(call.Call.StaticCallee()) {
 						calls = true
 					}
 				}
@@ -491,7 +525,7 @@ func ruleValCons(c *Ctx) {
 			callsHere := false
 			for _, in := range r.Block().Instrs {
 				if call, ok := in.(*ssa.Call); ok {
-					if cal := call.Call.StaticCallee(); cal != nil && cal.Name() == "parseFloat" {
+					if callsRecogniser(call.Call.StaticCallee()) {
 						callsHere = true
 					}
 				}
@@ -527,7 +561,25 @@ func ruleValCons(c *Ctx) {
 	// its place makes the guard true for values that are not integers of that size (2^63 prints as MaxInt64)
 	if sf := c.ssaFunc("interp", "value.str"); sf != nil {
 		nFmt, good := 0, true
-		allInstrs(sf, func(in ssa.Instruction) {
+		// value.str and the functions of the package it hands the conversion to (a format type with a method of its own)
+		var reach []*ssa.Function
+		seenR := map[*ssa.Function]bool{}
+		var visitR func(f *ssa.Function, d int)
+		visitR = func(f *ssa.Function, d int) {
+			if f == nil || seenR[f] || len(f.Blocks) == 0 || f.Pkg != sf.Pkg || d > 3 {
+				return
+			}
+			seenR[f] = true
+			reach = append(reach, f)
+			allInstrs(f, func(in ssa.Instruction) {
+				if ci, ok := in.(ssa.CallInstruction); ok {
+					visitR(ci.Common().StaticCallee(), d+1)
+				}
+			})
+		}
+		visitR(sf, 0)
+		for _, rf := range reach {
+		allInstrs(rf, func(in ssa.Instruction) {
 			call, ok := in.(*ssa.Call)
 			if !ok {
 				return
@@ -545,6 +597,7 @@ func ruleValCons(c *Ctx) {
 				good = false
 			}
 		})
+		}
 		c.check(nFmt > 0 && good, "str-int-path", sf.Pos(), "value.str prints integer digits only for int64(n) under the round-trip test n == float64(int64(n))", "value.str formats an integer that is not the plain int64 conversion of the number guarded by its own round-trip test (e.g. a saturating helper): numbers at or beyond 2^63 print as a clamped integer instead of going through OFMT/CONVFMT")
 	} else {
 		c.undecided("str-int-path", token.NoPos, "value.str not found on the SSA form")
